@@ -1,6 +1,7 @@
 import AkVerif.Gen.C09
 import AkVerif.Lemmas.SgrText
 import AkVerif.Lemmas.SgrHist
+import AkVerif.Lemmas.SgrResize
 /-!
 # C09 — emitted escape sequences are well-formed, self-contained and strippable
 
@@ -59,13 +60,16 @@ theorem invalid_raises (s : Spec) (h : wantedAttr s = none) :
     mkSeq cfg s = .error .valueError := by
   rw [sgr_std]; exact mkSeq_invalid s h
 
-/-- the valid colour values spelled out: `None`, the eight names, `0..255`, `(r,g,b)` with all
-components in `0..5`, and `g<decimal digits>` with value at most 23 -/
+/-- the valid colour values spelled out: `None`, the eight names, `0..255`, `(r,g,b)` - a tuple or a
+list - with all components `int`s in `0..5`, and `g<decimal digits>` with value at most 23. Every
+other value of any type (floats, sequences of another length or with a `float` / `None` / `str` /
+other member, `dict`, `set`, `bytes`, any other object) is outside: by `invalid_raises` it raises
+`ValueError` -/
 theorem colour_domain (c : ColorSpec) :
     (wantedColour c).isSome = true ↔
       c = .none ∨ (∃ s ∈ stdNames, c = .str s) ∨ (∃ n : Int, 0 ≤ n ∧ n ≤ 255 ∧ c = .int n) ∨
-      (∃ r g b : Int, (0 ≤ r ∧ r ≤ 5 ∧ 0 ≤ g ∧ g ≤ 5 ∧ 0 ≤ b ∧ b ≤ 5) ∧
-        c = .tuple [.int r, .int g, .int b]) ∨
+      (∃ k, ∃ r g b : Int, (0 ≤ r ∧ r ≤ 5 ∧ 0 ≤ g ∧ g ≤ 5 ∧ 0 ≤ b ∧ b ≤ 5) ∧
+        c = .tuple k [.int r, .int g, .int b]) ∨
       (∃ ds n, parseDec ds = some n ∧ n ≤ 23 ∧ c = .str ('g' :: ds)) :=
   wantedColour_domain c
 
@@ -507,6 +511,42 @@ theorem route_shows (s : Spec) (a : Attr) (t l r : List Char) (rt : Route)
   · exact routeStr_shows l r ⟨p, t, q⟩ a rt ⟨hp, hq, ht⟩ hl hr
   · exact routeStr_strip cls fin l r ⟨p, t, q⟩ rt hsp hsq hl hr ht
 
+/-! ## chunk lists that pass through a public list helper before they are rendered -/
+
+/-- `CHText.resize_chunks_list(chunks, new_len)` (any number of times, any lengths) between the
+formatters and the string: the chunks come from the formatters themselves or from the `chunks` of
+`CHText(*parts)`, the returned list is printed through `CHText.make(res)`, `CHText(*res)` or chunk by
+chunk. The screen shows the requested cells cut to the new length - a chunk cut in the middle keeps
+exactly its formatter's attributes - or **followed by blanks in default state**: the padding is
+never inside the sequences of the last coloured chunk. Default state after every chunk of the
+result and at the end; stripping gives the shown characters. -/
+theorem resize_shows (parts : List (Spec × List Char)) (cells : List (Char × Attr))
+    (hw : wantedCells parts = some cells) (ht : ∀ p ∈ parts, NoEsc p.2)
+    (src : Source) (lens : List Nat) (sink : Sink) :
+    ∃ cs, mkChunks cfg parts = .ok cs ∧
+      interp (listStr src lens sink cs) = some (fitAll cells lens, Attr.default) ∧
+      (∀ n, ∃ shown, interp (render ((listChunks src lens sink cs).take n)) = some (shown, Attr.default)) ∧
+      strip cls fin (listStr src lens sink cs) = (fitAll cells lens).map Prod.fst := by
+  rw [sgr_std]
+  obtain ⟨gs, hgs, hgood, hcells⟩ := mkChunks_good parts cells hw ht
+  obtain ⟨hstr, _⟩ :=
+    mkChunks_inv (fun p q => Strippable cls fin p ∧ Strippable cls fin q) strippable parts _ hgs ht
+  have hshows : Shows cls fin (gs.map Prod.fst) cells :=
+    ⟨gs, rfl, fun g hg => ⟨hgood g hg, (hstr g.1 (List.mem_map_of_mem hg)).1.1,
+      (hstr g.1 (List.mem_map_of_mem hg)).1.2⟩, hcells⟩
+  exact ⟨_, hgs, (listChunks_shows src lens sink hshows).screen⟩
+
+/-- the two modes of the helper spelled out on the screen: a longer length appends blanks with default
+attributes to the unchanged cells, a shorter one keeps the first `n` cells unchanged -/
+theorem resize_modes (cells : List (Char × Attr)) (n : Nat) :
+    (cells.length ≤ n → fitCells cells n = cells ++ List.replicate (n - cells.length) (' ', Attr.default)) ∧
+    (n ≤ cells.length → fitCells cells n = cells.take n) := by
+  constructor
+  · intro h; simp only [fitCells]; rw [List.take_of_length_le h]
+  · intro h
+    have : n - cells.length = 0 := by omega
+    simp [fitCells, this]
+
 /-! ## bytes -/
 
 /-- `ColorBytes` emits the same sequences as `ColorFmt`: all their characters are ASCII, so the
@@ -531,7 +571,7 @@ the conclusions are the expected literal sequences). -/
 
 private def red : Spec := ⟨.str "RED".toList, .none, .none, .none, .none, .none, .none, .bool false⟩
 private def fancy : Spec :=
-  ⟨.tuple [.int 1, .int 2, .int 3], .str "g5".toList, .bool true, .none, .bool false, .list 0, .str "x".toList, .int 0⟩
+  ⟨.tuple .list [.int 1, .int 2, .int 3], .str "g5".toList, .bool true, .none, .bool false, .list 0, .str "x".toList, .int 0⟩
 
 example : wantedAttr red = some ⟨.basic 1, .dflt, false, false, false, false, false⟩ := by decide +kernel
 example : (mkChunk cfg red "x".toList).map (fun c => render [c]) =
@@ -546,9 +586,25 @@ example : strip cls fin ([ESC] ++ "[38:5:67;48:5:237;1;9mab".toList ++ [ESC] ++ 
   decide +kernel
 example : wantedAttr { red with fg := .int 256 } = none := by decide +kernel
 example : mkSeq cfg { red with fg := .str "g24".toList } = .error .valueError := by decide +kernel
-example : mkSeq cfg { red with bg := .tuple [.int 0, .int 6, .int 0] } = .error .valueError := by decide +kernel
+example : mkSeq cfg { red with bg := .tuple .tuple [.int 0, .int 6, .int 0] } = .error .valueError := by decide +kernel
+example : mkSeq cfg { red with bg := .tuple .tuple [.other, .int 1, .int 2] } = .error .valueError := by decide +kernel
+example : mkSeq cfg { red with fg := .tuple .list [.int 1, .flt 2 1, .int 3] } = .error .valueError := by decide +kernel
+example : mkSeq cfg { red with fg := .other } = .error .valueError := by decide +kernel
+example : wantedColour (.tuple .list [.int 1, .int 2, .int 3]) = wantedColour (.tuple .tuple [.int 1, .int 2, .int 3]) := by
+  decide +kernel
 example : interp ([ESC] ++ "[31mx".toList) = some ([('x', ⟨.basic 1, .dflt, false, false, false, false, false⟩)],
     ⟨.basic 1, .dflt, false, false, false, false, false⟩) := by decide +kernel   -- colour would bleed
 example : interp ([ESC] ++ "[38;5;1mx".toList) = none := by decide +kernel     -- not in the modelled subset
+
+private def onBlue : Spec := ⟨.none, .str "BLUE".toList, .none, .none, .none, .none, .none, .bool false⟩
+-- padding a list that ends with a coloured chunk: the blanks stand after the reset sequence
+example : (mkChunks cfg [(red, "ab".toList), (onBlue, "t0".toList)]).map (listStr .fmts [6] .make) =
+    .ok ([ESC] ++ "[31mab".toList ++ [ESC] ++ "[0m".toList ++ [ESC] ++ "[44mt0".toList ++ [ESC] ++ "[0m  ".toList) := by
+  decide +kernel
+-- truncation inside the second chunk (the statement after the loop appends an empty plain chunk)
+example : (mkChunks cfg [(red, "ab".toList), (onBlue, "t0".toList)]).map (listStr .obj [3] .join) =
+    .ok ([ESC] ++ "[31mab".toList ++ [ESC] ++ "[0m".toList ++ [ESC] ++ "[44mt".toList ++ [ESC] ++ "[0m".toList) := by
+  decide +kernel
+example : fitAll [('a', Attr.default)] [3, 2] = [('a', Attr.default), (' ', Attr.default)] := by decide +kernel
 
 end C09
